@@ -5,7 +5,8 @@ Model of `Iter` (`parsed_json.go`): Advance, AdvanceInto, AdvanceIter, PeekNext(
 typed accessors, Root, Object/Array views. An `Iter` is a cursor; the tape, string buffer and
 message it points at are the shared `PJ` passed alongside (Go slices alias the same memory, so
 edits through one iterator are seen by every other one — that is what passing `pj` models).
-`lim` is `len(i.tape.Tape)` of the (possibly restricted) view.
+`lim` is `len(i.tape.Tape)` of the (possibly restricted) view; it bounds the reads of the advancing loops and the
+writes of the in-place edits (`Access.lean`: `wrV`).
 -/
 namespace SJ
 open Generated
